@@ -74,7 +74,7 @@ Definition pe_update_after_unlock_any (en : penergy) (amt unlock now : Z) : resu
 (** ------------------------------------------------------------------ fixed-supply-token *)
 (** rule_of_three_non_zero_result: full * cur / total (full itself when cur = total), "Zero amount" abort *)
 Definition rule3 (total cur full : Z) : result Z :=
-  do r <- (if cur =? total then Ok full else div_chk (full * cur + total - 1) total);
+  do r <- (if cur =? total then Ok full else div_chk (full * cur) total);
   check 0 <? r else EGuard;
   Ok r.
 
@@ -144,7 +144,8 @@ Record env := mkEnv {
                               removeLiquidity: (0, base asset received, other token received) *)
   v_farm : Z * Z;          (* enterFarm / claimRewards: farm token (nonce, amount); exitFarm: (0, farming tokens returned) *)
   v_fmerge : Z * Z;        (* mergeFarmTokens: farm token (nonce, amount) *)
-  v_rew : Z * Z;           (* reward payment forwarded to the caller: locked token (nonce, amount) *)
+  v_rew : Z * Z;           (* reward payment of the farm, locked token (nonce, amount): forwarded to the caller by
+                              enter / exit / claim; kept by the proxy in mergeWrappedFarmTokens *)
   v_fact : Z * Z;          (* mergeTokens / extendLockPeriod of the factory: locked token (nonce, amount) *)
   v_energy : penergy;      (* the caller's energy entry as the proxy reads it *)
   v_unlock : Z             (* unlock epoch of the locked nonce the proxy burns *)
@@ -527,7 +528,10 @@ Definition ep_merge_wfm (s : state) (u farm : Z) (ps : list pay) (e : env) : res
   let '(s1, its) := r in
   do r2 <- merge_items s1 u farm its e;
   let '(s2, (m, amt, law)) := r2 in
-  Ok (s2, no_eff [(TK_WFM, m, amt)] law).
+  (* the farm's mergeFarmTokens also pays the caller's boosted rewards, as locked tokens, to the proxy;
+     merge_farm_tokens_through_farm decodes only the merged farm token: the rewards stay in the proxy *)
+  let '(rk, ra) := v_rew e in
+  Ok (locked_in s2 rk ra, no_eff [(TK_WFM, m, amt)] (law && (0 <=? ra))).
 
 Definition ep_inc_lp (s : state) (u : Z) (p : pay) (e : env) : result (state * eff) :=
   check p_tok p =? TK_WLP else EGuard;
